@@ -56,8 +56,14 @@ def main(run):
             dpars = dict(pars)
             if disperse:
                 pdn = list(info.parameters.pd_1d)
-                for nm in rng.sample(pdn, min(len(pdn), 2)):
-                    dpars[nm + "_pd"] = rng.uniform(0.05, 0.3); dpars[nm + "_pd_n"] = rng.choice([5, 9]); dpars[nm + "_pd_type"] = rng.choice(["gaussian", "schulz"])
+                # meshes on both sides of the 100-point chunk of the DLL driver: 5..81 points, 101, 151, 12 x 12
+                shape = rng.choice(["small", "small2", "one-big", "two-big"]) if rep != 1 else "one-big"
+                chosen = rng.sample(pdn, min(len(pdn), 1 if shape in ("small", "one-big") else 2))
+                for nm in chosen:
+                    dpars[nm + "_pd"] = rng.uniform(0.05, 0.3); dpars[nm + "_pd_type"] = rng.choice(["gaussian", "schulz"])
+                    dpars[nm + "_pd_n"] = (rng.choice([5, 9]) if shape.startswith("small") else
+                                           rng.choice([101, 151]) if shape == "one-big" else 12)
+                stats.setdefault("mesh_shapes", {}).setdefault(shape, 0); stats["mesh_shapes"][shape] += 1
             stats["disperse" if disperse else "mono"] += 1
             scale, bg = rng.uniform(0.1, 2), rng.uniform(0, 0.1)
             for mode in range(0, len(modes) + 1):
@@ -102,6 +108,42 @@ def main(run):
                     run.add(Finding("C14:%s:%s" % (name, "mode%d" % mode), "%s (mode %d, %s): %s" % (name, mode, "dispersed" if disperse else "monodisperse", bad), desc))
                 else:
                     distinct.add((name, rep, mode))
+            # the reported averages are the normalised weighted sums of the monodisperse values over the mesh
+            pdset = [k[:-3] for k in dpars if k.endswith("_pd")]
+            if disperse and len(pdset) == 1 and dpars[pdset[0] + "_pd_n"] <= 151:
+                from sasmodels import weights as _w
+                nm = pdset[0]
+                par = [x for x in info.parameters.call_parameters if x.name == nm][0]
+                xs, ws = _w.get_weights(dpars[nm + "_pd_type"], dpars[nm + "_pd_n"], dpars[nm + "_pd"], 3.0 if dpars[nm + "_pd_type"] == "gaussian" else 8.0,
+                                        dpars[nm], par.limits, par.relative_pd)
+                mode = len(modes)
+                kq = model.make_kernel([q[::8]])
+                acc = np.zeros((2, len(q[::8]))); nr = 0.0; sr = 0.0; sv = 0.0; sf = 0.0
+                allv = True
+                for x, w in zip(xs, ws):
+                    one = {k: v for k, v in dpars.items() if not k.startswith(nm + "_pd")}
+                    one[nm] = float(x)
+                    a1, a2, r_, sh_, ra_ = call_Fq(kq, dict(one, scale=1.0, background=0.0, radius_effective_mode=mode), cutoff=0.0)
+                    if not (np.all(np.isfinite(a2)) and np.isfinite(sh_) and sh_ > 0):
+                        allv = False; break
+                    acc[0] += w * np.asarray(a1); acc[1] += w * np.asarray(a2); nr += w; sr += w * r_; sv += w * sh_; sf += w * sh_ * ra_
+                if allv and nr > 0:
+                    evals += len(xs)
+                    fq = dict(dpars, scale=1.0, background=0.0, radius_effective_mode=mode)
+                    fq[nm + "_pd_nsigma"] = 3.0 if dpars[nm + "_pd_type"] == "gaussian" else 8.0
+                    F1, F2, reff, shell, ratio = call_Fq(kq, fq, cutoff=0.0)
+                    stats["brute_force_averages"] = stats.get("brute_force_averages", 0) + 1
+                    tol = 1e-9
+                    msg = None
+                    if np.any(np.abs(np.asarray(F1) - acc[0] / nr) > tol * np.abs(acc[0] / nr).max()) or np.any(np.abs(np.asarray(F2) - acc[1] / nr) > tol * (acc[1] / nr).max()):
+                        msg = "<F>, <F^2> are not sum(w F)/sum(w), sum(w F^2)/sum(w) over the %d-point mesh in %s (first q: %.9g, %.9g against %.9g, %.9g)" % (
+                            len(xs), nm, F1[0], F2[0], acc[0][0] / nr, acc[1][0] / nr)
+                    elif abs(shell - sv / nr) > tol * sv / nr or abs(ratio * shell - sf / nr) > tol * sf / nr or (mode and abs(reff - sr / nr) > tol * abs(sr / nr)):
+                        msg = "reported R_eff=%.9g, V_shell=%.9g, V_form=%.9g are not the weighted means %.9g, %.9g, %.9g over the %d-point mesh in %s" % (
+                            reff, shell, ratio * shell, sr / nr, sv / nr, sf / nr, len(xs), nm)
+                    if msg:
+                        run.add(Finding("C14:%s:average" % name, "%s: %s" % (name, msg), dict(model=name, pars=dpars, mesh_points=len(xs))))
+                kq.release()
             kernel.release()
             if len(run.coverage["samples"]) < 5:
                 run.sample(dict(model=name, dispersed=disperse, modes=len(modes), q_range=[float(q[0]), float(q[-1])], pars={k: v for k, v in list(dpars.items())[:6]}))
